@@ -1,11 +1,11 @@
 import json,sys
-pid=sys.argv[1]
+pid=sys.argv[1]; tag=sys.argv[2] if len(sys.argv)>2 else ""
 props={json.loads(l)['id']:json.loads(l) for l in open('/verif/properties.jsonl')}
 p=props[pid]
 print(f"""You are helping test a verification effort for the open-source project theandrew168/bronzebeard (a pure-Python RISC-V assembler, bronzebeard/asm.py, plus a DFU flasher, bronzebeard/dfu.py).
 
-You have your own scratch git worktree of the project at /root/mw-{pid} (work ONLY there; never touch /repo or /verif, and do not read anything under /verif). Run the test suite with:
-  cd /root/mw-{pid} && PYTHONPATH=/root/mw-{pid} /venv/bin/python -m pytest -q -p no:cacheprovider
+You have your own scratch git worktree of the project at /root/mw-{pid}{tag} (work ONLY there; never touch /repo or /verif, and do not read anything under /verif). Run the test suite with:
+  cd /root/mw-{pid}{tag} && PYTHONPATH=/root/mw-{pid}{tag} /venv/bin/python -m pytest -q -p no:cacheprovider
 (954 tests, about 2 s).
 
 Here is a semantic property the project is supposed to satisfy:
@@ -23,9 +23,9 @@ Your job: produce THREE different, realistic, subtle source changes (the kind of
   (c) is as hard to notice as you can make it: it should fail only for a narrow class of inputs (a boundary value, a particular width, a particular combination of features, a particular location of a file, compression on only, ...), not for the obvious ones.
 Make the three changes different in kind (different functions / mechanisms / input classes).
 
-For each change i in 1..3 write into /root/mut-out/{pid}/m<i>/ :
+For each change i in 1..3 write into /root/mut-out/{pid}{tag}/m<i>/ :
   - patch.diff : `git diff` output of the change against the worktree's HEAD (must apply with `git apply` to a clean checkout)
   - demo.py    : a self-contained script (run as `PYTHONPATH=<checkout> /venv/bin/python demo.py` from the checkout root) that exits 0 on the unmodified code and exits non-zero (printing what went wrong) on the patched code, demonstrating the property violation through the public behaviour named under "observed at"
   - notes.txt  : 3-6 lines: what the change is, which inputs it needs to show up, why the tests do not notice
-After producing each patch, run `git -C /root/mw-{pid} checkout -- .` (and `git clean -fd` for files you created in the worktree other than your outputs) so each patch is against the clean HEAD. Verify for each: tests pass with the patch applied; demo exits 0 without and non-zero with it.
+After producing each patch, run `git -C /root/mw-{pid}{tag} checkout -- .` (and `git clean -fd` for files you created in the worktree other than your outputs) so each patch is against the clean HEAD. Verify for each: tests pass with the patch applied; demo exits 0 without and non-zero with it.
 When finished, leave the worktree clean and reply with a short list of the three changes (one line each).""")
